@@ -272,6 +272,22 @@ CHECKS = {
                   "M110 reset is corrupted on a firmware expecting N1; lost tail after a surplus ok. No axioms.",
         technique="Rocq proofs (inductive invariants of a transition system, all interleavings and corruption patterns) + trace-acceptance correspondence (vm_compute) against the real threads + oracle",
         ref="§C15"),
+    "C16": dict(
+        text="PARTIAL. model/Direct.v = write() (clear ack, enqueue, wait, re-raise) x printcore queue/sender thread x FIFO device x "
+             "reader callback; runs = all interleavings. Proved: C16_order (device receive log ++ queue == statements written, call "
+             "order, exactly once, for every device behaviour), C16_sync + C16_return_after_own_ack (from a quiescent start, any latency, "
+             "any unsolicited status lines, error replies anywhere: write() completes only after the terminator of its own statement was "
+             "handled; whenever no write is in progress everything is sent and acknowledged = what disconnect(wait) waits for), "
+             "C16_error_surfaces / C16_raises_only_on_error (an error/alarm/!! line makes the next completing write raise; no raise "
+             "without one). Synchrony without quiescence is REFUTED (C16_refuted_stale_ok = recorded finding). Tie: real PrintrunWriter + "
+             "printcore threads over a fake FIFO serial device; each loss-free trace must be a run of the model (check_trace in Coq); "
+             "oracle with tagged acknowledgements for order / return-after-own-ack / errors / readings / connection loss.",
+        note=TB + "Partial: atomic steps (threading.Event/Queue, scheduler, timeouts not modelled); synchrony needs a quiescent "
+                  "start and no unsolicited error line during a wait; statements abstract (strip/encode tied by correspondence); "
+                  "socket mode shares the writer code and is not run separately. Known findings (known_findings.json): stale ok "
+                  "of the trailing M110; non-ASCII statement kills the send thread. No axioms.",
+        technique="Rocq proofs (inductive invariants over all interleavings of a 4-party transition system) + trace-acceptance correspondence (vm_compute) against the real threads + oracle",
+        ref="§C16"),
 }
 
 PENDING_REASON = "check not built yet in this session (work in progress; see DESIGN.md §10 for the order)"
